@@ -6,11 +6,20 @@
    each visited node together with the parent it was reached from: DynamicChild{data,parent}); the
    analyser is a fold of `step` (= IVisitor::visit) over that list followed by notify_end.
 
+   The analyser since the repair proposed in tools/c15_proposed_fix.diff: a method is analysed AS A
+   WHOLE when the walker reaches its node (analyze_method): the map is emptied, the local
+   declarations found anywhere in the body are entered (collect_local_vars), every name the body
+   mentions outside member position is looked up (count_mentions / notify_mention), the unused
+   entries are reported and the map is emptied again; every other visit and notify_end do nothing.
+   The analyser BEFORE that repair (one map filled and read while the walker advances, flushed at
+   the next method node) is kept at the end of this file as old_step / analyze_old for the
+   regression theorems of Properties/C15.v and C17.v.
+
    `keyf` is the function applied to a name before it is used as a key of cur_local_vars.
-   Since /repo e5fd419 the code uses `get_identifier().to_uppercase()`: keyf := key_today = upper
+   Since /repo e5fd419 the code uses `to_uppercase()`: keyf := key_today = upper
    (before: the spelling itself).  The message prints the DECLARED spelling
    (`val.ident_token.get_value_as_str()`), and since /repo 993bb42 a terminal whose token is a
-   string literal is skipped before the map lookup.  The theorems are generic in keyf. *)
+   string literal is never a mention.  The theorems are generic in keyf. *)
 From GoldV Require Import Base Tokens Lexer AstKinds Tree.
 
 (* the key function of the code as it is: names are case-insensitive *)
@@ -79,45 +88,14 @@ Definition unused_of (m : list (str * vinfo)) : list diag :=
 (* check_unused_vars (HashMap iteration; order unobservable) *)
 Definition check_unused (s : st) : st := mkSt (cur s) (diags s ++ unused_of (cur s)).
 
-(* check_unused_vars(); cur_local_vars = HashMap::new() *)
-Definition reset (s : st) : st := mkSt [] (diags (check_unused s)).
-
-(* to_string_ident_pos = format!("{}:{}", get_identifier(), get_pos().to_string_brief()):
-   the identifier and the start position ("(l:L,c:C)"); two such strings are equal iff both
-   components are (the position part is delimited from the right).  get_pos() is range.start for
-   every node kind that can be an operand (checks/c15.py ASSUMPTIONS; the harness flags a tree
-   where it is not). *)
-Definition pos_eqb (a b : pos) : bool := (pline a =? pline b) && (pcol a =? pcol b).
-Definition ident_pos_eqb (a b : node) : bool :=
-  str_eqb (nident a) (nident b) && pos_eqb (rstart (nrange a)) (rstart (nrange b)).
+Definition is_method (n : node) : bool := is_kind KAstProcedure n || is_kind KAstFunction n.
 
 Definition op_is_dot (p : node) : bool :=
   match attr_tok K_op p with Some t => tt_eqb (tty t) TDot | None => false end.
 
-(* is_left_node: the parent is always Some in a walk *)
-Definition is_left_node (p n : node) : bool :=
-  if is_kind KAstBinaryOp p then
-    if negb (op_is_dot p) then true
-    else match nchildren p with
-         | l :: _ => ident_pos_eqb l n           (* bin_node.left_node *)
-         | [] => true                            (* not reachable: n is a child of p *)
-         end
-  else true.
-
 (* terminal.token.token_type == TokenType::StringLiteral (the K_token attribute of the dump) *)
 Definition is_string_lit (n : node) : bool :=
   match attr_tok K_token n with Some t => tt_eqb (tty t) TStringLiteral | None => false end.
-
-(* notify_terminal_node: a string literal is skipped before the lookup *)
-Definition notify_terminal (keyf : str -> str) (s : st) (p n : node) : st :=
-  if is_string_lit n then s else
-  let k := keyf (nident n) in
-  match alookup k (cur s) with
-  | Some v => if is_left_node p n
-              then mkSt (ainsert k (mkV (vuses v + 1) (vrange v) (vname v)) (cur s)) (diags s)
-              else s
-  | None => s
-  end.
 
 (* notify_local_var_node.  ident_token.value is the declaration's own identifier:
    AstLocalVariableDeclaration::get_identifier() returns identifier.get_value_as_str() *)
@@ -128,18 +106,82 @@ Definition notify_local_var (keyf : str -> str) (s : st) (n : node) : st :=
   | None => mkSt (ainsert k (mkV 0 (ident_range n) (nident n)) (cur s)) (diags s)
   end.
 
-(* IVisitor::visit: four successive downcasts *)
-Definition step (keyf : str -> str) (s : st) (e : ev) : st :=
-  let p := ev_parent e in
-  let n := ev_node e in
-  let s1 := if is_kind KAstProcedure n then reset s else s in
-  let s2 := if is_kind KAstFunction n then reset s1 else s1 in
-  let s3 := if is_kind KAstTerminal n then notify_terminal keyf s2 p n else s2 in
-  if is_kind KAstLocalVariableDeclaration n then notify_local_var keyf s3 n else s3.
+(* the nodes of a subtree in pre-order: the order in which collect_local_vars reaches them *)
+Fixpoint subnodes (n : node) {struct n} : list node :=
+  n ::
+  match n with
+  | Node _ _ _ _ _ ch =>
+      (fix go (l : list node) {struct l} : list node :=
+         match l with
+         | [] => []
+         | c :: l' => subnodes c ++ go l'
+         end) ch
+  end.
 
-(* run: visit everything, then notify_end = check_unused_vars *)
-Definition run (keyf : str -> str) (l : list ev) (s : st) : st :=
-  check_unused (fold_left (step keyf) l s).
+(* collect_local_vars *)
+Definition collect (keyf : str -> str) (s : st) (b : node) : st :=
+  fold_left (fun s n => if is_kind KAstLocalVariableDeclaration n then notify_local_var keyf s n else s)
+            (subnodes b) s.
+
+Definition is_dot_op (n : node) : bool := is_kind KAstBinaryOp n && op_is_dot n.
+
+(* count_mentions: the is_member argument of the recursive call on a child (first = the child is
+   left_node): both operands of a '.' but the first are member names, the first one is what the
+   '.' itself is; the base of an array access is what the access is; anything else: false *)
+Definition child_member (n : node) (member first : bool) : bool :=
+  if is_dot_op n then (if first then member else true)
+  else if is_kind KAstArrayAccess n then first && member
+  else false.
+
+(* the names count_mentions passes to notify_mention at node n itself:
+   a terminal that is neither in member position nor a string literal; the name of a call that is
+   not in member position (AstMethodCall.identifier is not a child node); the counter of a for
+   block (AstForBlock.counter_token, the K_ident attribute of the dump) *)
+Definition names_here (member : bool) (n : node) : list str :=
+  if is_kind KAstTerminal n then (if negb member && negb (is_string_lit n) then [nident n] else [])
+  else (if is_kind KAstMethodCall n && negb member then [nident n] else []) ++
+       (if is_kind KAstForBlock n then match attr_tok K_ident n with Some t => [tval t] | None => [] end else []).
+
+(* count_mentions: all the names passed to notify_mention, in call order (a terminal returns early) *)
+Fixpoint mention_names (member : bool) (n : node) {struct n} : list str :=
+  names_here member n ++
+  match n with
+  | Node _ _ _ _ _ ch =>
+      if is_kind KAstTerminal n then [] else
+      (fix go (first : bool) (l : list node) {struct l} : list str :=
+         match l with
+         | [] => []
+         | c :: l' => mention_names (child_member n member first) c ++ go false l'
+         end) true ch
+  end.
+
+(* notify_mention *)
+Definition notify_mention (keyf : str -> str) (s : st) (name : str) : st :=
+  let k := keyf name in
+  match alookup k (cur s) with
+  | Some v => mkSt (ainsert k (mkV (vuses v + 1) (vrange v) (vname v)) (cur s)) (diags s)
+  | None => s
+  end.
+
+(* proc_node.body / func_node.body: the child of kind AstMethodBody (the other children - name,
+   return type, parameter list - are of other kinds; checks/c15.py ASSUMPTIONS) *)
+Definition method_body (m : node) : option node := find (is_kind KAstMethodBody) (nchildren m).
+
+(* analyze_method *)
+Definition analyze_method (keyf : str -> str) (s : st) (m : node) : st :=
+  let s0 := mkSt [] (diags s) in
+  let s1 := match method_body m with
+            | Some b => fold_left (notify_mention keyf) (mention_names false b) (collect keyf s0 b)
+            | None => s0
+            end in
+  mkSt [] (diags (check_unused s1)).
+
+(* IVisitor::visit: two successive downcasts (a node is of one kind) *)
+Definition step (keyf : str -> str) (s : st) (e : ev) : st :=
+  if is_method (ev_node e) then analyze_method keyf s (ev_node e) else s.
+
+(* run: visit everything; notify_end does nothing *)
+Definition run (keyf : str -> str) (l : list ev) (s : st) : st := fold_left (step keyf) l s.
 
 (* all diagnostics of the analyser for one file (append_diagnostics) *)
 Definition analyze (keyf : str -> str) (file : node) : list diag :=
@@ -153,3 +195,54 @@ Definition dup_errors (keyf : str -> str) (file : node) : list diag :=
 
 (* the code as it is *)
 Definition analyze_today (file : node) : list diag := analyze key_today file.
+
+(* ---- the analyser before the repair (regression theorems only) --------------------------- *)
+
+(* check_unused_vars(); cur_local_vars = HashMap::new() *)
+Definition reset (s : st) : st := mkSt [] (diags (check_unused s)).
+
+(* to_string_ident_pos = format!("{}:{}", get_identifier(), get_pos().to_string_brief()):
+   the identifier and the start position ("(l:L,c:C)"); two such strings are equal iff both
+   components are (the position part is delimited from the right). *)
+Definition pos_eqb (a b : pos) : bool := (pline a =? pline b) && (pcol a =? pcol b).
+Definition ident_pos_eqb (a b : node) : bool :=
+  str_eqb (nident a) (nident b) && pos_eqb (rstart (nrange a)) (rstart (nrange b)).
+
+(* is_left_node: the parent is always Some in a walk *)
+Definition is_left_node (p n : node) : bool :=
+  if is_kind KAstBinaryOp p then
+    if negb (op_is_dot p) then true
+    else match nchildren p with
+         | l :: _ => ident_pos_eqb l n           (* bin_node.left_node *)
+         | [] => true                            (* not reachable: n is a child of p *)
+         end
+  else true.
+
+(* notify_terminal_node: a string literal is skipped before the lookup *)
+Definition old_notify_terminal (keyf : str -> str) (s : st) (p n : node) : st :=
+  if is_string_lit n then s else
+  let k := keyf (nident n) in
+  match alookup k (cur s) with
+  | Some v => if is_left_node p n
+              then mkSt (ainsert k (mkV (vuses v + 1) (vrange v) (vname v)) (cur s)) (diags s)
+              else s
+  | None => s
+  end.
+
+(* IVisitor::visit as it was: four successive downcasts *)
+Definition old_step (keyf : str -> str) (s : st) (e : ev) : st :=
+  let p := ev_parent e in
+  let n := ev_node e in
+  let s1 := if is_kind KAstProcedure n then reset s else s in
+  let s2 := if is_kind KAstFunction n then reset s1 else s1 in
+  let s3 := if is_kind KAstTerminal n then old_notify_terminal keyf s2 p n else s2 in
+  if is_kind KAstLocalVariableDeclaration n then notify_local_var keyf s3 n else s3.
+
+(* run as it was: visit everything, then notify_end = check_unused_vars *)
+Definition old_run (keyf : str -> str) (l : list ev) (s : st) : st :=
+  check_unused (fold_left (old_step keyf) l s).
+
+Definition analyze_old (keyf : str -> str) (file : node) : list diag :=
+  diags (old_run keyf (events file) st0).
+Definition unused_vars_old (keyf : str -> str) (file : node) : list diag :=
+  filter is_unused_diag (analyze_old keyf file).
